@@ -242,6 +242,45 @@ func checkC10(P *Program, r *Result, tier string) {
 			}
 		}
 		r.add("VALIDATE", shortName(fn), "switch", "every accepted value is a declared ProtocolID constant", P.pos(fn.Pos()), okCases && n > 0, detail)
+		// the supported set itself (specification held by the checker: binary, compact v2 for compatibility,
+		// kitex protobuf, and the two streaming struct encodings; 0x02 "thrift compact" is declared but not supported)
+		{
+			want := map[int64]bool{0x00: true, 0x03: true, 0x04: true, 0x10: true, 0x11: true}
+			got := map[int64]bool{}
+			for _, b := range fn.Blocks {
+				for _, ins := range b.Instrs {
+					if bo, ok := ins.(*ssa.BinOp); ok && bo.Op == token.EQL && sameWidthSource(bo.X) == ssa.Value(fn.Params[0]) {
+						if k, ok := constInt(bo.Y); ok {
+							// the comparison leads to acceptance if its true side can reach a nil return without passing an error return
+							got[k] = true
+						}
+					}
+				}
+			}
+			if tabLoad != nil {
+				if ia, ok := tabLoad.X.(*ssa.IndexAddr); ok {
+					if g, ok := ia.X.(*ssa.Global); ok {
+						if set, okT := boolTableTrue(P, g); okT {
+							for k := range set {
+								got[k] = true
+							}
+						}
+					}
+				}
+			}
+			d := ""
+			for k := range got {
+				if !want[k] {
+					d = fmt.Sprintf("%#x is accepted but is not a supported protocol id", k)
+				}
+			}
+			for k := range want {
+				if !got[k] {
+					d = fmt.Sprintf("supported protocol id %#x is not accepted", k)
+				}
+			}
+			r.add("VALIDATE", shortName(fn), "set", "the accepted protocol ids are exactly the supported ones {0x00, 0x03, 0x04, 0x10, 0x11}", P.pos(fn.Pos()), d == "", d)
+		}
 		def := false
 		for _, ret := range returnsOf(fn) {
 			ne := newAnalysis(P).fa(fn).nilExpand(ret.Results[0])
